@@ -53,6 +53,8 @@ pub struct Stats {
     pub digests_interleaved: HashSet<u64>,
     pub violating_executions: u64,
     pub diverged: u64,
+    pub skipped: u64,
+    pub new_shared: Vec<(u32, u32)>,
     pub violations: Vec<Violation>,
 }
 
@@ -61,6 +63,12 @@ impl Stats {
         self.executions += 1;
         if o.diverged > 0 {
             self.diverged += 1;
+        }
+        self.skipped += o.skipped;
+        for k in &o.new_shared {
+            if !self.new_shared.contains(k) {
+                self.new_shared.push(*k);
+            }
         }
         if o.violation.is_some() {
             record_violation(o, self);
@@ -94,6 +102,12 @@ impl Stats {
         self.unexplored_jobs += o.unexplored_jobs;
         self.violating_executions += o.violating_executions;
         self.diverged += o.diverged;
+        self.skipped += o.skipped;
+        for k in &o.new_shared {
+            if !self.new_shared.contains(k) {
+                self.new_shared.push(*k);
+            }
+        }
         self.violations.extend(o.violations.iter().cloned());
         self.digests.extend(o.digests.iter().copied());
         self.digests_interleaved.extend(o.digests_interleaved.iter().copied());
@@ -106,6 +120,8 @@ impl Stats {
             "unexplored_jobs": self.unexplored_jobs,
             "violating_executions": self.violating_executions,
             "diverged": self.diverged,
+            "skipped": self.skipped,
+            "new_shared": self.new_shared.iter().map(|k| json!([k.0, k.1])).collect::<Vec<_>>(),
             "violations": self.violations.iter().map(|v| json!({"message": v.message, "cost": v.cost, "choices": v.choices, "replay": v.replay})).collect::<Vec<_>>(),
             "digests": self.digests.iter().collect::<Vec<_>>(),
             "digests_interleaved": self.digests_interleaved.iter().collect::<Vec<_>>(),
@@ -129,6 +145,8 @@ impl Stats {
             unexplored_jobs: g("unexplored_jobs"),
             violating_executions: g("violating_executions"),
             diverged: g("diverged"),
+            skipped: g("skipped"),
+            new_shared: v["new_shared"].as_array().map(|a| a.iter().map(|k| (k[0].as_u64().unwrap_or(0) as u32, k[1].as_u64().unwrap_or(0) as u32)).collect()).unwrap_or_default(),
             violations: v["violations"].as_array().map(|a| a.iter().map(|vi| Violation {
                 property: String::new(), scenario: String::new(),
                 message: vi["message"].as_str().unwrap_or("").to_string(),
@@ -164,6 +182,8 @@ pub struct Summary {
     pub wall_s: f64,
     pub samples: Vec<Value>,
     pub nthreads: usize,
+    pub reduction_restarts: u32,
+    pub shared_locations: usize,
 }
 
 // ---------------------------------------------------------------------------------------------
@@ -347,6 +367,11 @@ fn explore_job(r: &dyn Runnable, job: Job, bound: Option<u32>, stats: &mut Stats
         }
         let out = r.run(&p, false);
         stats.add(&out, p.len());
+        if !out.new_shared.is_empty() {
+            // the private-location set was too small: the whole scenario is restarted
+            shared.stop.store(1, Ordering::SeqCst);
+            return None;
+        }
         children_lazy(&out, p.len(), c, bound, &mut stack);
         if out.violation.is_some() {
             *abandoned += 1;
@@ -493,6 +518,10 @@ fn prepare_child(cfg: &Config, scenario: &str, pipe_fd: i32, shared: &'static Sh
     }));
 }
 
+pub fn evidence_dir() -> String {
+    std::env::var("VERIF_EVIDENCE_DIR").unwrap_or_else(|_| "/verif/evidence".to_string())
+}
+
 pub fn replay_dir() -> String {
     std::env::var("VERIF_REPLAY_DIR").unwrap_or_else(|_| "/verif/replays".to_string())
 }
@@ -534,8 +563,36 @@ fn interpret(results: Vec<ChildResult>, cfg: &Config, scenario: &str, stats: &mu
     Ok(())
 }
 
-/// Explore `r` under `cfg`. All executions happen in forked children.
+/// Explore `r` under `cfg`. All executions happen in forked children. With the private-location
+/// reduction the exploration is restarted whenever an execution shows that a location treated as
+/// private is touched by a second thread / frame kind; the final pass has verified in every
+/// execution that each skipped location really was private.
 pub fn explore(r: &dyn Runnable, cfg: &Config) -> Result<Summary, String> {
+    let start = Instant::now();
+    sched::SHARED_KEYS.lock().unwrap().clear();
+    let mut restarts = 0;
+    loop {
+        let mut s = explore_once(r, cfg)?;
+        if s.stats.new_shared.is_empty() || restarts >= 40 {
+            if !s.stats.new_shared.is_empty() {
+                return Err("private-location set did not converge after 40 restarts".into());
+            }
+            s.wall_s = start.elapsed().as_secs_f64();
+            s.reduction_restarts = restarts;
+            s.shared_locations = sched::SHARED_KEYS.lock().unwrap().len();
+            return Ok(s);
+        }
+        let mut g = sched::SHARED_KEYS.lock().unwrap();
+        for k in &s.stats.new_shared {
+            if !g.contains(k) {
+                g.push(*k);
+            }
+        }
+        restarts += 1;
+    }
+}
+
+fn explore_once(r: &dyn Runnable, cfg: &Config) -> Result<Summary, String> {
     let start = Instant::now();
     let deadline = start + cfg.max_wall;
     let name = r.name();
@@ -564,6 +621,10 @@ pub fn explore(r: &dyn Runnable, cfg: &Config) -> Result<Summary, String> {
             let keep = samples.len() < 3;
             let out = r.run(&p, keep);
             st.add(&out, p.len());
+            if !out.new_shared.is_empty() {
+                queue.clear();
+                break;
+            }
             if keep {
                 samples.push(sample_json(&p, &out));
             }
@@ -600,7 +661,8 @@ pub fn explore(r: &dyn Runnable, cfg: &Config) -> Result<Summary, String> {
     extra.clear();
 
     // Phase 2: workers (re-spawned if some die in a crashing / hanging execution).
-    if !jobs.is_empty() {
+    shared.stop.store(0, Ordering::SeqCst);
+    if !jobs.is_empty() && stats.new_shared.is_empty() {
         shared.next_job.store(0, Ordering::SeqCst);
         let mut rounds = 0;
         while (shared.next_job.load(Ordering::SeqCst) as usize) < jobs.len() && rounds < 400 {
@@ -684,6 +746,8 @@ pub fn explore(r: &dyn Runnable, cfg: &Config) -> Result<Summary, String> {
         wall_s: start.elapsed().as_secs_f64(),
         samples,
         nthreads,
+        reduction_restarts: 0,
+        shared_locations: 0,
     })
 }
 
